@@ -28,7 +28,7 @@ def c06_functional(fmt, lmax):
     o.append('void harness(void) {')
     o.append('  VP_INPUT(vp_in_t, in);')
     o.append('  VP_ASSUME(in.len <= %d);' % lmax)
-    o.append('  uint8_t *obj = vp_obj_from(in.mem, %d); uint8_t *pay = vp_obj_from(in.pay, %d);' % (N, max(lmax, 1)))
+    o.append('  uint8_t *obj = vp_pdu_from(in.mem, %d); uint8_t *pay = vp_obj_from(in.pay, %d);' % (N, max(lmax, 1)))
     o.append('  static uint8_t ref[%d]; memcpy(ref, in.mem, %d);' % (N, N))
     o += _ref(fmt, H, 'in.len')
     o.append('  for (unsigned i = 0; i < %d; i++) { if (i < in.len) ref[%d + i] = in.pay[i]; }' % (lmax, H))
@@ -40,7 +40,7 @@ def c06_functional(fmt, lmax):
         o.append('  if (in.len <= 64) VP_ASSERT(Avtp_Can_GetCanPayloadLength(pdu) == in.len, "C06 can GetCanPayloadLength returns the original payload length");')
         o.append('  VP_ASSERT(Avtp_Can_GetPayload(pdu) == obj + %d, "C06 can GetPayload is the address right after the header");' % H)
         # composition of the separate steps
-        o.append('  uint8_t *obj2 = vp_obj_from(in.mem, %d); Avtp_Can_t *p2 = (Avtp_Can_t *)obj2;' % N)
+        o.append('  uint8_t *obj2 = vp_pdu_from(in.mem, %d); Avtp_Can_t *p2 = (Avtp_Can_t *)obj2;' % N)
         o.append('  Avtp_Can_SetPayload(p2, pay, in.len);')
         o.append('  Avtp_Can_SetEff(p2, in.id > 0x7FFu ? 1 : 0); Avtp_Can_SetCanIdentifier(p2, in.id); Avtp_Can_SetFdf(p2, in.variant & 1u);')
         o.append('  Avtp_Can_Finalize(p2, in.len);')
@@ -69,7 +69,7 @@ def c06_extent(fmt, length):
     o.append('typedef struct { uint8_t mem[%d]; uint8_t pay[%d]; uint32_t id; uint8_t variant; } vp_in_t;' % (N, max(length, 1)))
     o.append('void harness(void) {')
     o.append('  VP_INPUT(vp_in_t, in);')
-    o.append('  uint8_t *obj = vp_obj_from(in.mem, %d); uint8_t *pay = vp_obj_from(in.pay, %d);' % (N, length))
+    o.append('  uint8_t *obj = vp_pdu_from(in.mem, %d); uint8_t *pay = vp_obj_from(in.pay, %d);' % (N, length))
     o.append('  uint8_t ref[%d]; memcpy(ref, in.mem, %d);' % (N, N))
     o += _ref(fmt, H, '%du' % length)
     if length:
